@@ -198,7 +198,12 @@ impl Drop for Slot {
 struct WakeGuard(usize);
 impl Drop for WakeGuard {
     fn drop(&mut self) {
-        wake_slot(self.0, "gwk");
+        if std::thread::panicking() {
+            // a second panic while unwinding would abort the process: the guard stays silent
+            ev(&format!("gwk{}:none", self.0));
+        } else {
+            wake_slot(self.0, "gwk");
+        }
     }
 }
 
@@ -253,6 +258,7 @@ thread_local! {
 struct Traced {
     j: usize,
     epoch: u64,
+    polled: bool,
     fut: Option<Pin<Box<dyn Future<Output = ()>>>>,
 }
 impl Future for Traced {
@@ -266,6 +272,7 @@ impl Future for Traced {
             return Poll::Ready(());
         }
         ev(&format!("in{}", self.j));
+        self.polled = true;
         self.fut.as_mut().unwrap().as_mut().poll(cx)
     }
 }
@@ -275,13 +282,16 @@ impl Drop for Traced {
             if let Some(f) = self.fut.take() {
                 std::mem::forget(f);
             }
+        } else if !self.polled {
+            // dropped before its first poll: the body's own `bdrop` guard does not exist yet
+            ev(&format!("bdrop{}", self.j));
         }
     }
 }
 
 fn make_body(j: usize, root: bool) -> Option<Traced> {
     let instrs = SH.with(|s| s.borrow_mut().bodies.get_mut(j).and_then(|b| b.take()))?;
-    Some(Traced { j, epoch: EPOCH.with(|e| e.get()), fut: Some(Box::pin(body(j, instrs, root))) })
+    Some(Traced { j, epoch: EPOCH.with(|e| e.get()), polled: false, fut: Some(Box::pin(body(j, instrs, root))) })
 }
 
 /// New script: futures left in the `SPAWNED` static by an earlier (panicked) script are adopted and
@@ -539,6 +549,17 @@ fn run_start(dirs: Vec<Dir>) {
 
 // ------------------------------------------------------------------- driver `block`
 
+/// Runtime code called from inside a built-in (`extern "C"`) must not unwind through it: a panic is
+/// caught here, the host traps, and the wait answers EVENT_CANCEL (see host.rs) so that `block_on` ends.
+fn guarded(f: impl FnOnce()) -> bool {
+    let ok = std::panic::catch_unwind(std::panic::AssertUnwindSafe(f)).is_ok();
+    if !ok {
+        ev("panic");
+        host::trap("panic-inside-wait");
+    }
+    ok
+}
+
 /// host directives of the `block` driver run inside `waitable-set.wait(set)` until a member is ready
 fn on_wait(set: u32) {
     loop {
@@ -562,8 +583,16 @@ fn on_wait(set: u32) {
             Ok(Some(Dir::Adv(k, st))) => host::advance(k, st),
             Ok(Some(Dir::Dlv(k))) => ev(&format!("dlv{k}:skip")),
             Ok(Some(Dir::DlvEnd)) => ev("dlvU:skip"),
-            Ok(Some(Dir::Wake(n))) => wake_slot(n, "hwk"),
-            Ok(Some(Dir::WDrop(n))) => drop_slot(n, "hwdrop"),
+            Ok(Some(Dir::Wake(n))) => {
+                if !guarded(|| wake_slot(n, "hwk")) {
+                    return;
+                }
+            }
+            Ok(Some(Dir::WDrop(n))) => {
+                if !guarded(|| drop_slot(n, "hwdrop")) {
+                    return;
+                }
+            }
             Ok(Some(Dir::Start(j))) => ev(&format!("S{j}:skip")),
             Ok(Some(Dir::Cancel(i))) => ev(&format!("X{i}:skip")),
             Ok(None) => {
@@ -580,10 +609,12 @@ fn on_wait(set: u32) {
                 let slot = SH.with(|s| s.borrow().wakers.iter().position(|w| w.is_some()));
                 match slot {
                     Some(n) => {
-                        wake_slot(n, "autowk");
+                        if !guarded(|| wake_slot(n, "autowk")) {
+                            return;
+                        }
                         // a wake that does not make the set ready cannot help again
-                        if host::ready_members(set).is_empty() {
-                            drop_slot(n, "autodrop");
+                        if host::ready_members(set).is_empty() && !guarded(|| drop_slot(n, "autodrop")) {
+                            return;
                         }
                     }
                     None => {
@@ -671,7 +702,9 @@ pub fn handle(line: &str) -> String {
     SH.with(|sh| *sh.borrow_mut() = Shared::default());
     ca::clear_errors();
     let base = ca::live().0;
+    trace::mark_panics(true);
     let ok = inner(line);
+    trace::mark_panics(false);
     let leak = ca::live().0 as i64 - base as i64;
     if !ok {
         return "bad-script".into();
